@@ -124,6 +124,14 @@ def expected_by_oracle(c):
         if k == "matrix":
             M = oracle(c["e"], c["n"])
             return ("ok", [complex(z) for z in M.reshape(-1)])
+        if k == "applybasis" and c["n"] >= 11 and c["e"][0] in ("qft", "qft_swapped") and c["e"][1] == (1 << c["n"]) - 1:
+            # the DFT column by formula (no 2^n x 2^n matrix): natural order for qft_swapped, input index bit-reversed for qft
+            n = c["n"]; j = c["j"] & ((1 << n) - 1)
+            x = int(format(j, "0%db" % n)[::-1], 2) if c["e"][0] == "qft" else j
+            y = np.arange(1 << n, dtype=np.float64)
+            ph = 2 * np.pi * ((y * x) % (1 << n)) / (1 << n)
+            out = np.exp(1j * ph) / np.sqrt(1 << n)
+            return ("ok", [complex(z) for z in out])
         if k == "applybasis":
             n = c["n"]
             M = oracle(c["e"], n)
@@ -231,9 +239,14 @@ def run_cases(run, binary, cases, tag, up_to_phase=False, relation="ops-correspo
     Returns (n_evaluated, disagreements)."""
     texts = [(str(i), harness_text(c)) for i, c in enumerate(cases)]
     impl = run_harness(binary, "ops", texts, deadline=deadline)
-    model_vals = coqio.run_terms([coq_term(c) for c in cases], IMPORTS, tag)
+    # cases marked no_model are too large for the model's list buffers (registers of 17+ qubits): they run on the
+    # implementation only and serve the search for a failing input once some other case has left the model
+    with_model = [i for i, c in enumerate(cases) if not c.get("no_model")]
+    vals = coqio.run_terms([coq_term(cases[i]) for i in with_model], IMPORTS, tag)
+    model_vals = dict(zip(with_model, vals))
     disagreements = []
-    for i, c in enumerate(cases):
+    for i in with_model:
+        c = cases[i]
         oi = parse_impl(c, impl.get(str(i), "ABORT missing"))
         om = parse_model(c, model_vals[i])
         if not same(oi, om):
